@@ -4,11 +4,16 @@
 //!
 //!   cvh replay <spec> --in behaviours.ndjson --out report.json [opts]   (spec -> code)
 //!   cvh drive  <spec> --out trace.ndjson [--n N] [opts]                 (code -> spec traces)
+mod alloc;
 mod build;
 mod common;
 mod isolate;
 mod observe;
+mod par;
 mod props;
+
+#[global_allocator]
+static GLOBAL: alloc::Counting = alloc::Counting;
 
 #[allow(unused_imports)]
 use common::Args;
@@ -19,8 +24,40 @@ fn main() {
     let code = match (args.cmd.as_str(), args.sub.as_str()) {
         ("replay", "range") => props::range::replay(&args),
         ("drive", "range") => props::range::drive(&args),
+        ("replay", "xlsx_sheet") => props::xlsx_sheet::replay(&args),
+        ("drive", "xlsx_sheet") => props::xlsx_sheet::drive(&args),
+        ("replay", "xlsx_strings") => props::xlsx_strings::replay(&args),
+        ("drive", "xlsx_strings") => props::xlsx_strings::drive(&args),
+        ("replay", "shared_formula") => props::shared_formula::replay(&args),
+        ("drive", "shared_formula") => props::shared_formula::drive(&args),
+        ("replay", "numfmt") => props::numfmt::replay(&args),
+        ("drive", "numfmt") => props::numfmt::drive(&args),
+        ("replay", "numfmt_builtin") => props::numfmt::builtin_files(&args),
+        ("drive", "dates") => props::dates::drive(&args),
+        ("replay", "xlsx_tables") => props::xlsx_tables::replay(&args),
+        ("drive", "xlsx_tables") => props::xlsx_tables::drive(&args),
+        ("replay", "api") => props::api::replay(&args),
+        ("replay", "protected") => props::protected::replay(&args),
+        ("drive", "protected") => props::protected::drive(&args),
+        ("replay", "metadata") => props::metadata::replay(&args),
+        ("drive", "metadata") => props::metadata::drive(&args),
+        ("faults", "fields") => props::faults::write_fields(&args),
+        ("faults", "child") => props::faults::child(&args),
+        ("faults", "run") => props::faults::run(&args),
+        ("replay", "ods_text") => props::ods_text::replay(&args),
+        ("replay", "bin_text") => props::bin_text::replay(&args),
+        ("drive", "bin_text") => props::bin_text::drive(&args),
+        ("replay", "xls_merge") => props::xls_merge::replay(&args),
+        ("replay", "de") => props::de::replay(&args),
+        ("drive", "de") => props::de::drive(&args),
         ("replay", "cfb") => isolate::run_replay(&args, props::cfb::replay),
         ("drive", "cfb") => isolate::run_drive(&args, props::cfb::drive),
+        ("replay", "ods") => props::ods::replay(&args),
+        ("drive", "ods") => props::ods::drive(&args),
+        ("drive", "odsfile") => props::ods::file(&args),
+        ("replay", "xlsb") => props::xlsb::replay(&args),
+        ("replay", "xlsbframes") => props::xlsb::frames(&args),
+        ("drive", "xlsb") => props::xlsb::drive(&args),
         ("replay", "biffcells") => isolate::run_replay(&args, props::biff::replay_cells),
         ("replay", "rk") => props::biff::replay_rk(&args),
         ("replay", "sst") => isolate::run_replay(&args, props::sst::replay),
